@@ -55,6 +55,54 @@ CHECKS = {
         technique='effect contracts with assumed contract of open(); complete path enumeration of a loop-free body; call-site precondition scan'),
 }
 
+MATCHER_NOTE = ("proved layer: 70 fixed-shape duplicate-free content types, intelligent_choice=False, flag-only callees summarised exactly, get_leaves by truthiness contract, "
+                "Houdini invariant; bounded layer (never counted as proved): all histories up to the tier's per-type bounds, childless children, oracle = xsdspec; "
+                "known findings = committed extent of failing histories (known_histories.json).")
+
+
+def _m(prop, what, proved):
+    return dict(category='other',
+                text=(f"{what} Two layers reported separately: PROVED -- {proved} (VCs from the instrumented real matcher code over ALL flag states and leaf occupancies, discharged by z3; "
+                      "only the obligations of obligations.lock.json are claimed); BOUNDED -- run-time contracts against the reference oracle on every operation history up to the stated bounds "
+                      "(adds, forward adds, removals, replacements, stale removals, failed attempts, to_string with and without intelligent choice) for all 94 content types."),
+                design_ref=f'DESIGN.md 5 {prop}', note=MATCHER_NOTE,
+                technique='contract-based deductive verification of the real matcher (symbolic pre-states, inductive invariant by Houdini, z3) + bounded run-time contract checking as the stated stand-in')
+
+
+CHECKS.update({
+    'C01': _m('C01', 'Serialised child sequences are words of the schema content model.', 'leaf typing of add_element for every state (70 types) and "final check passes => counts form a word of the schema model" under the inductive invariant (65 types)'),
+    'C02': _m('C02', 'In-order valid sequences are accepted, kept in order and pass the final check.', '"counts form a word of the schema model => final check passes" under the inductive invariant (46 types); acceptance/order only bounded'),
+    'C06': _m('C06', 'No child lost, duplicated or orphaned.', 'contract of add_element from EVERY flag state: exactly the returned leaf grows by exactly the child, at its end, or nothing changes on an exception (70 types x all child names x forward values)'),
+    'C07': _m('C07', 'No accepted dead ends.', '"accepted => counts still completable" (quantifier-free completability predicate from the schema regex) under the invariant, per type and child name'),
+    'C10': _m('C10', 'A failed operation changes nothing.', 'exceptional postcondition of add_element from every flag state: no leaf list changed, child not attached (70 types); flags/behavioural equivalence only bounded'),
+    'C11': _m('C11', 'Removal restores the behaviour.', 'nothing beyond the invariant-preservation of remove (auxiliary); the property itself is decided only in the bounded layer (twin comparison)'),
+    'C12': _m('C12', 'Order of insertion does not matter where the schema fixes it.', '"rejected (structural, forward=None) => not completable" under the invariant, per type and child name; unique-arrangement clause bounded'),
+    'C08': dict(category='other', text=("Node lemma of the parser on the real _et_xml_to_music_xml (instrumented): for every value tag and ALL values the element's type accepts, str(v) parses back to the same value (ints stay ints); "
+                                        "same through the setattr ladder for every declared attribute of every complex type; strings with interior whitespace survive verbatim. Whole-document claim = these lemmas + children visited in order + C02 + C16."),
+                design_ref='DESIGN.md 5 C08', note='assumed contracts of str/repr/float/int (NumeralStr, uninterpreted py_float_of/py_int_of), str.strip identity on the proved domain, BMP texts; exponent-form floats excluded (C05 finding).',
+                technique='contract-based deductive verification: symbolic values through the real parser ladder, VCs discharged by z3'),
+    'C09': dict(category='other', text=("Node lemma over the schema's lexical spaces: every normalised text in Lex(type) (z3 string constrained by the reference regex/facets) is accepted by the real parser and renders back to the same text/number, for element content "
+                                        "and for every declared attribute delivered under the key ElementTree produces (namespaced for xml:*); conservation obligations (children order, tail text, exterior whitespace) enumerated."),
+                design_ref='DESIGN.md 5 C09', note='as C08; Lex from xsdspec; acceptance of whole documents additionally needs C02 (bounded/proved per type).',
+                technique='contract-based deductive verification: symbolic lexical-space texts through the real parser, VCs discharged by z3'),
+    'C13': dict(category='other', text=("Frame contracts (writes only to the owned region, the arguments, or write-once cache slots) checked by differencing a fingerprint of ALL shared state (every class dictionary, every template tree, XSD_TREE_DICT) and identity snapshots of bystander instances around "
+                                        "the operations: complete over the finite class sets (158 simple types, 441 element classes), bounded over operation histories (94 content types); copy-ownership of fresh elements per type."),
+                design_ref='DESIGN.md 5 C13', note='run-time frame checking (state differencing), not a static frame proof; write-once whitelist stated in the evidence.', technique='frame contracts checked by state differencing on complete class sets + bounded histories'),
+    'C15': dict(category='proof', text=("Dispatch contract of __setattr__/__getattr__/_convert_attribute_to_child with the explicit API replaced by recording stubs: for all 441 classes x every possible child name x {instance, None, value} x {found, not found} x read, and every declared attribute spelling, "
+                                        "the recorded explicit call is exactly the one the contract names; exceptions of the explicit call propagate. The quantifiers are finite and enumerated completely."),
+                design_ref='DESIGN.md 5 C15', note='callees by contract (C04/C06); pre-states built by direct list insertion.', technique='callee-by-contract dispatch verification, finite-complete'),
+    'C16': dict(category='other', text=("_create_et_xml_element against a recording ElementTree stub with SYMBOLIC text and attribute value (all strings: handed on verbatim, children in view order, indent at depth) per class; purity/determinism on the real back end; "
+                                        "to_string == independent rendering of the abstract state after every step of protocol-shaped interleavings on nested chains (bounded) -- catches hidden state; bounded layer: to_string has no observable effect on any history."),
+                design_ref='DESIGN.md 5 C16', note='assumed ElementTree contract (sampled at run time, not proved); render scenarios and flag purity are bounded.', technique='contract verification with symbolic strings against an assumed ElementTree contract + bounded interleavings against an independent renderer'),
+    'C18': dict(category='other', text=("Contracts of the xsd_check=False paths per class with a TRIPWIRE matcher: no matcher use, no exception, insertion order, frame (child back-pointer pre-states incl. children still owned by checked elements), serialisation order; "
+                                        "_final_checks gating on all 8 mixed three-level trees; byte-identity with the checked twin and no structural failures on every bounded history."),
+                design_ref='DESIGN.md 5 C18', note='children: up to four declared and three undeclared kinds; byte-identity clause bounded and inherits C02.', technique='contract checking with tripwire matcher (finite-complete) + bounded histories'),
+    'C19': _m('C19', 'Only documented exception types, no output.', 'exception types of every add_element path from every flag state (70 types); plus all 441 classes x wrong-argument calls of every public entry point (finite-complete), static print scan, C05 exc clauses; termination NOT decided'),
+    'C20': dict(category='other', text=("Sufficient sequential condition for thread safety (Owicki-Gries style global invariant): after EVERY executed library line of the first use of each of the 599 classes, every shared cache slot that first use writes is unset or already final (publish once, complete). "
+                                        "Violations are replayed with two real threads pre-empted at the offending line. Not a proof over interleavings."),
+                design_ref='DESIGN.md 5 C20', note='GIL atomicity of one store; readers treat a set slot as final; frame completeness from C13.', technique='global-invariant (interference-freedom) checking after every line of every first use; schedule-controlled replay'),
+})
+
 NOT_YET = "check under construction (build phase); see DESIGN.md"
 
 
